@@ -119,7 +119,7 @@ func fragScript(mod gfModule, self string, f gfFrag, i int) [][]pipe.ScriptPart 
 		fields("\n", "B")
 		parts = append(parts, t("\n}"))
 	case "initfn":
-		parts = append(parts, t(fmt.Sprintf("// init %d is one of possibly several.\nfunc init() { _ = %d }", i, i)))
+		parts = append(parts, t(fmt.Sprintf("func init() { _ = %d }", i)))
 	case "grouped":
 		parts = append(parts, t(fmt.Sprintf("var (\n\tGA%d = 1\n\tGB%d = 2\n)", i, i)))
 	case "comment":
